@@ -229,15 +229,9 @@ func TestVerifC12(t *testing.T) {
 	defer r.Finish("real GroupCoordinator over the real InMemoryStore on synctest virtual time; PRNG op lists (join new/existing with random subscriptions, sync, heartbeat, leave, commit, time advance incl. session/rebalance expiry, well-behaved settle rounds) for <=4 members, <=3 store topics of 1-5 partitions plus an optional topic missing from the store. At every successful SyncGroup reply of the group's current generation (generation/membership read from the stored group record): decoded assignment has only topics of that member's latest subscription; pairwise disjoint from what other current members received in the same generation; identical to what the same member received earlier in that generation; once every current member has synced, the union covers every partition (store metadata) of every topic subscribed by >=1 member exactly once. non-trivial = case in which a generation of >=2 members was fully synced",
 		"subscription of a member = the one sent with its latest JoinGroup", "topics absent from the store have no partitions in the oracle's universe (the phantom partition 0 is neither required nor forbidden)", "assignment bytes decoded with franz-go kmsg.ConsumerMemberAssignment")
 	p := gDefaultProfile
-	n := r.N(800, 15000)
-	for ci := 0; ci < n; ci++ {
-		rng := r.Rand(ci)
-		cfg := gGenConfig(rng, p, fmt.Sprintf("g%d", ci))
-		ops := gGenOps(rng, p, cfg)
-		o := &c12Obs{r: r, ci: ci, gens: map[string]*c12Gen{}}
-		w := gRunCase(t, cfg, ops, int64(ci)*100000, func(w *gWorld) {
-			w.obs = append(w.obs, o.observe, func(w *gWorld, ev *gEvent) { r.Seen("group_states", w.stateSig(ev.After)) })
-		})
+	n := r.N(600, 40000)
+	seen := func(w *gWorld, ev *gEvent) { r.Seen("group_states", w.stateSig(ev.After)) }
+	account := func(ci int, w *gWorld, o *c12Obs) {
 		if w.blocked {
 			r.Inconclusive(fmt.Sprintf("case %d: a coordinator call never returned", ci))
 		}
@@ -250,7 +244,28 @@ func TestVerifC12(t *testing.T) {
 			r.Sample(gWitness(w, -1, nil))
 		}
 	}
+	for ci := 0; ci < n; ci++ {
+		rng := r.Rand(ci)
+		if ci%3 == 2 { // two groups served by one coordinator, interleaved
+			cfgs, ops := gGenPair(rng, p, fmt.Sprintf("g%d", ci))
+			var os [2]*c12Obs
+			ws := gRunPair(t, cfgs, ops, int64(ci)*100000, func(i int, w *gWorld) {
+				os[i] = &c12Obs{r: r, ci: ci, gens: map[string]*c12Gen{}}
+				w.obs = append(w.obs, os[i].observe, seen)
+			})
+			account(ci, ws[0], os[0])
+			account(ci, ws[1], os[1])
+			r.Count("cases_with_two_groups_on_one_coordinator", 1)
+			continue
+		}
+		cfg := gGenConfig(rng, p, fmt.Sprintf("g%d", ci))
+		ops := gGenOps(rng, p, cfg)
+		o := &c12Obs{r: r, ci: ci, gens: map[string]*c12Gen{}}
+		w := gRunCase(t, cfg, ops, int64(ci)*100000, func(w *gWorld) { w.obs = append(w.obs, o.observe, seen) })
+		account(ci, w, o)
+	}
 	r.Floor("sync_success", 200)
 	r.Floor("generations_fully_synced_multi_member", 50)
 	r.Floor("group_states", 12)
+	r.Exhaustive(false) // a sample of histories; the bounded-exhaustive part is leg enum
 }
